@@ -1,22 +1,22 @@
 CONSTANTS
-  MaxId = 3
+  MaxId = 1
   ZeroIncBug = FALSE
   OpenRaceBug = FALSE
   W = 1
   B = 1
-  Openers = {0}
-  MaxWrite = 1
+  Openers = {}
+  MaxWrite = 2
   MaxRead = 1
-  Budget = 7
+  Budget = 5
   WireCap = 3
-  DoExport = TRUE
-  DeadlineBug = "none"
-  Acts = {"open","accept","cancel","write","read","cw","close"}
-  Modes = {}
+  DoExport = FALSE
+  DeadlineBug = "rresignal"
+  Acts = {"wstart","rstart","setwd","setrd","write","read"}
+  Modes = {"clear","past","far","soon"}
   DlEnds = {0, 1}
-  PreEst = FALSE
+  PreEst = TRUE
   BlockOnRoom = FALSE
-  TrackKinds = {"zr","rt"}
+  TrackKinds = {}
 SPECIFICATION Spec
 VIEW view
 INVARIANT InvTokens InvInOrder InvEOFComplete InvNoCrossTalk InvNoViolation InvWindow InvWire Export
